@@ -10,13 +10,13 @@ package scanner
 
 //@ func resultReceiver.append(key, value, revision)
 //@   assumed
-//@   modifies commonResultReceiver.result streamResultReceiver.batch []*proto.KeyValue proto.KeyValue.Key proto.KeyValue.Value proto.KeyValue.Revision
+//@   modifies ghost.chan_len ghost.chan_log commonResultReceiver.result streamResultReceiver.batch []*proto.KeyValue proto.KeyValue.Key proto.KeyValue.Value proto.KeyValue.Revision
 //@ func resultReceiver.flush()
 //@   assumed
-//@   modifies streamResultReceiver.batch
+//@   modifies ghost.chan_len ghost.chan_log streamResultReceiver.batch
 //@ func resultReceiver.close()
 //@   assumed
-//@   modifies streamResultReceiver.batch
+//@   modifies ghost.chan_len ghost.chan_log streamResultReceiver.batch
 //@ func resultReceiver.reset()
 //@   assumed
 //@   modifies commonResultReceiver.result streamResultReceiver.batch
@@ -61,6 +61,93 @@ package scanner
 //@   props C13
 //@   ensures [terminator] response != nil && response.RangeResponse != nil && !response.RangeResponse.More && response.RangeResponse.Header != nil && response.RangeResponse.Header.Revision == revision
 //@   ensures [carries-error] (err == nil) == (len(response.Err) == 0) || err != nil
+
+// Ghost record of channel traffic: chan_len[c] messages have been sent on c so far, message i
+// is the pointer chan_log[c][i]; chan_closed[c] after close(c).
+//@ ghost chan_len (Array Int Int)
+//@ ghost chan_log (Array Int (Array Int Int))
+//@ ghost chan_closed (Array Int Bool)
+
+//@ pred data_batch(m, rev) = m != nil && m.RangeResponse != nil && m.RangeResponse.More && m.RangeResponse.Header != nil && m.RangeResponse.Header.Revision == rev
+//@ pred terminator(m, rev) = m != nil && m.RangeResponse != nil && !m.RangeResponse.More && m.RangeResponse.Header != nil && m.RangeResponse.Header.Revision == rev
+
+//@ func (*streamResultReceiver).append(key, value, revision)
+//@   props C13
+//@   requires e.stream != nil && !chan_closed[e.stream]
+//@   modifies inferred:(*streamResultReceiver).append
+//@   ensures [at-most-one-batch] chan_len[e.stream] == old(chan_len)[e.stream] || chan_len[e.stream] == old(chan_len)[e.stream]+1
+//@   ensures [batches-name-the-read-revision] forall(i, old(chan_len)[e.stream] <= i && i < chan_len[e.stream], data_batch(asref(chan_log[e.stream][i], "*proto.StreamRangeResponse"), e.readRev))
+//@   ensures [receiver-kept] e.stream == old(e.stream) && e.readRev == old(e.readRev)
+
+//@ func (*streamResultReceiver).flush()
+//@   props C13
+//@   requires e.stream != nil && !chan_closed[e.stream]
+//@   modifies inferred:(*streamResultReceiver).flush
+//@   ensures [at-most-one-batch] chan_len[e.stream] == old(chan_len)[e.stream] || chan_len[e.stream] == old(chan_len)[e.stream]+1
+//@   ensures [batches-name-the-read-revision] forall(i, old(chan_len)[e.stream] <= i && i < chan_len[e.stream], data_batch(asref(chan_log[e.stream][i], "*proto.StreamRangeResponse"), e.readRev))
+//@   ensures [receiver-kept] e.stream == old(e.stream) && e.readRev == old(e.readRev)
+
+//@ func (*streamResultReceiver).close()
+//@   props C13
+//@   requires e.stream != nil && !chan_closed[e.stream]
+//@   modifies inferred:(*streamResultReceiver).close
+//@   ensures [batches-name-the-read-revision] forall(i, old(chan_len)[e.stream] <= i && i < chan_len[e.stream], data_batch(asref(chan_log[e.stream][i], "*proto.StreamRangeResponse"), e.readRev))
+
+//@ func (*streamResultReceiver).reset()
+//@   props C13
+//@   modifies inferred:(*streamResultReceiver).reset
+//@   ensures [receiver-kept] e.stream == old(e.stream) && e.readRev == old(e.readRev) && len(e.batch) == 0
+
+// the goroutine started by RangeStream: whatever the scan did, exactly one more message is
+// sent afterwards, it is the terminator for this revision, and then the stream is closed
+//@ func (*scanner).RangeStream$1()
+//@   props C13 C08
+//@   nosafety
+//@   requires wf_scanner(r) && !batch_open && stream != nil && !chan_closed[stream]
+//@   modifies inferred:(*scanner).RangeStream$1
+//@   ensures [closed-at-the-end] chan_closed[stream]
+//@   ensures [terminator-last] terminator(asref(chan_log[stream][chan_len[stream]-1], "*proto.StreamRangeResponse"), revision)
+
+// ---- common receiver (C03, C13) ----
+//@ pred wf_common(c) = c != nil && c.limit >= 0 && (c.limit == 0 || len(c.result) <= c.limit)
+
+//@ func (*commonResultReceiver).isLimited() (result)
+//@   props C03 C13
+//@   ensures [def] result == (c.limit > 0)
+
+//@ func (*commonResultReceiver).needMore() (result)
+//@   props C03 C13
+//@   ensures [def] result == (c.limit <= 0 || len(c.result) < c.limit)
+
+//@ func (*commonResultReceiver).append(key, value, revision)
+//@   props C03 C13
+//@   requires c.limit >= 0 && (c.limit == 0 || len(c.result) < c.limit)
+//@   modifies inferred:(*commonResultReceiver).append
+//@   ensures [one-more] len(c.result) == old(len(c.result))+1 && c.limit == old(c.limit)
+//@   ensures [prefix-kept] forall(i, 0 <= i && i < old(len(c.result)), c.result[i] == old(c.result[i]))
+//@   ensures [last] c.result[len(c.result)-1] != nil && c.result[len(c.result)-1].Key == key && c.result[len(c.result)-1].Value == value && c.result[len(c.result)-1].Revision == revision
+//@   ensures [wf] wf_common(c)
+
+//@ func (*commonResultReceiver).reset()
+//@   props C03 C13
+//@   modifies inferred:(*commonResultReceiver).reset
+//@   ensures [empty] len(c.result) == 0 && c.limit == old(c.limit)
+
+//@ func (*commonResultReceiver).fork() (result)
+//@   props C03 C13
+//@   requires [limit-not-negative] c.limit >= 0
+//@   ensures [same-limit-empty] typeis(result, "*scanner.commonResultReceiver") && asptr(result, "*scanner.commonResultReceiver").limit == c.limit && len(asptr(result, "*scanner.commonResultReceiver").result) == 0 && fresh(asptr(result, "*scanner.commonResultReceiver"))
+
+//@ func (*commonResultReceiver).merge(receiver)
+//@   props C03 C13
+//@   requires wf_common(c) && typeis(receiver, "*scanner.commonResultReceiver") && asptr(receiver, "*scanner.commonResultReceiver") != c && asptr(receiver, "*scanner.commonResultReceiver") != nil
+//@   let sub = asptr(receiver, "*scanner.commonResultReceiver")
+//@   let n0 = old(len(c.result))
+//@   modifies inferred:(*commonResultReceiver).merge
+//@   ensures [length] len(c.result) == ite(c.limit <= 0 || n0+len(sub.result) <= c.limit, n0+len(sub.result), c.limit) && c.limit == old(c.limit)
+//@   ensures [prefix-kept] forall(i, 0 <= i && i < n0, c.result[i] == old(c.result[i]))
+//@   ensures [appended-in-order] forall(i, n0 <= i && i < len(c.result), c.result[i] == old(sub.result[i-n0]))
+//@   ensures [wf] wf_common(c)
 
 // ---- C08 ----
 
